@@ -34,6 +34,7 @@ impl Default for C09 {
             "stale_collateral_zeroed_borrow_ok",
             "faulted_debt_oracle_op_rejected",
             "health_cache_prices_judged",
+            "foreign_oracle_account_in_list",
         ]);
         C09 { cov, counter: 0 }
     }
@@ -50,7 +51,7 @@ impl C09 {
     /// Run the real price adapter on a fork (permissionless pulse) and compare with Ref.
     fn probe_bank(&mut self, bk: &Pubkey, store: &Store, hook: &Hook, why: &str, out: &mut Vec<Violation>) {
         let Some(bank) = model::bank_of(store, bk) else { return };
-        if !matches!(bank.config.oracle_setup, OracleSetup::PythPushOracle | OracleSetup::SwitchboardPull | OracleSetup::Fixed) {
+        if !matches!(bank.config.oracle_setup, OracleSetup::PythPushOracle | OracleSetup::SwitchboardPull | OracleSetup::Fixed | OracleSetup::StakedWithPythPush) {
             return;
         }
         let rem = crate::world::oracle_metas_for(&bank);
@@ -123,10 +124,48 @@ impl C09 {
     }
 }
 
+impl C09 {
+    /// "Only the exact oracle account configured for the bank": when the account list handed to
+    /// the risk engine carries some other account in an oracle slot of a position, the position's
+    /// recorded price must be nil (counted as nothing / refused), whatever that account contains.
+    fn judge_foreign_oracle_accounts(&mut self, ix: &crate::rt::Ix, a: &Store, b: &Store, idx: usize, out: &mut Vec<Violation>) {
+        let Some(k) = ix_user_account(ix) else { return };
+        let (Some(pre), Some(post)) = (model::account_of(a, &k), model::account_of(b, &k)) else { return };
+        if pre.account_flags & (ACCOUNT_IN_FLASHLOAN | ACCOUNT_IN_RECEIVERSHIP) != 0 {
+            return; // no valuation takes place
+        }
+        let hc = post.health_cache;
+        let mut slot = 0usize;
+        for bal in post.lending_account.balances.iter().filter(|x| x.active != 0) {
+            let i = slot;
+            slot += 1;
+            let Some(bank) = model::bank_of(b, &bal.bank_pk) else { continue };
+            let want = crate::world::oracle_metas_for(&bank);
+            if want.is_empty() {
+                continue;
+            }
+            let Some(pos) = ix.accounts.iter().rposition(|m| m.pubkey == bal.bank_pk) else { continue };
+            let got: Vec<Pubkey> = ix.accounts.iter().skip(pos + 1).take(want.len()).map(|m| m.pubkey).collect();
+            let same = got.len() == want.len() && got.iter().zip(want.iter()).all(|(g, w)| *g == w.pubkey);
+            if same {
+                continue;
+            }
+            self.cov.probe("foreign_oracle_account_in_list");
+            let recorded = f64::from_le_bytes(hc.prices[i]);
+            self.cov.eval(format!("{}|foreign_oracle|{:?}|price_nil{}", ix.tag, bank.config.oracle_setup, (recorded == 0.0) as u8));
+            if recorded != 0.0 {
+                out.push(viol("C09", "price_taken_from_unconfigured_account", ix.tag,
+                    format!("account {k}: bank {} slot {i}: configured {:?} passed {:?} recorded price {recorded}",
+                        bal.bank_pk, want.iter().map(|m| m.pubkey).collect::<Vec<_>>(), got), idx));
+            }
+        }
+    }
+}
+
 fn oracle_age(bank: &Bank, store: &Store, clock: crate::rt::SimClock) -> Option<i64> {
     let a = store.get(&bank.config.oracle_keys[0])?;
     match bank.config.oracle_setup {
-        OracleSetup::PythPushOracle => crate::fixtures::parse_pyth(&a.data).map(|p| clock.unix_timestamp - p.publish_time),
+        OracleSetup::PythPushOracle | OracleSetup::StakedWithPythPush => crate::fixtures::parse_pyth(&a.data).map(|p| clock.unix_timestamp - p.publish_time),
         OracleSetup::SwitchboardPull => crate::fixtures::parse_swb(&a.data).map(|p| clock.unix_timestamp - p.last_update_timestamp),
         _ => None,
     }
@@ -135,7 +174,7 @@ fn oracle_age(bank: &Bank, store: &Store, clock: crate::rt::SimClock) -> Option<
 fn banks_using(store: &Store, oracle: &Pubkey) -> Vec<Pubkey> {
     model::all_banks(store)
         .into_iter()
-        .filter(|(_, b)| b.config.oracle_keys[0] == *oracle)
+        .filter(|(_, b)| b.config.oracle_keys[..3].contains(oracle))
         .map(|(k, _)| k)
         .collect()
 }
@@ -192,6 +231,9 @@ impl Monitor for C09 {
             }
             let a = states[i];
             let b = states[i + 1];
+            if matches!(ix.tag, "borrow" | "withdraw" | "pulse_health") {
+                self.judge_foreign_oracle_accounts(ix, a, b, idx, out);
+            }
             match ix.tag {
                 "borrow" | "withdraw" => {
                     let Some(k) = ix_user_account(ix) else { continue };
